@@ -145,6 +145,10 @@ def tupleAt (xs : List (Nat ⊕ List Nat)) (j : Nat) : List Nat :=
 def zipLen (xs : List (Nat ⊕ List Nat)) (ex : Nat) : Nat :=
   xs.foldl (fun m x => match x with | .inl _ => min m ex | .inr l => min m l.length) ex
 
+def isWhole : Nat ⊕ List Nat → Bool
+  | .inl _ => false
+  | .inr _ => true
+
 /-- `reg_set` -/
 def regSet (st : Init) (args : List Arg) : Except Err (List (List Nat)) :=
   match resolveQs st args 0 with
@@ -152,7 +156,7 @@ def regSet (st : Init) (args : List Arg) : Except Err (List (List Nat)) :=
   | .ok (xs, ex) =>
     if ex ≠ 0 then .ok ((List.range (zipLen xs ex)).map (tupleAt xs))
     -- `expand == 0`: no whole register — or only EMPTY ones, which stay lists and make `int(i)` fail
-    else if xs.any (fun x => match x with | .inl _ => false | .inr _ => true) then .error .type
+    else if xs.any isWhole then .error .type
     else .ok [xs.map fun x => match x with | .inl q => q | .inr _ => 0]
 
 /-! ## parameter expressions (`_eval_param`) -/
